@@ -31,8 +31,10 @@ import numpy as np
 from .. import common as C
 
 HEADER = ("From Coq Require Import List Bool Arith. Import ListNotations.\n"
-          "Require Import NV.C27.Model.\n")
-VARIANT = os.environ.get("C27_VARIANT", "fixed")       # development aid only: `orig` models the pinned tree
+          "Require Import NV.C27.Model NV.C27.Gen_Variant.\n")
+# head_variant is read from the current source by tr/c27_variant.py (with or without fix C27-5);
+# C27_VARIANT=orig is a development aid only (models the pinned tree)
+VARIANT = os.environ.get("C27_VARIANT", "head_variant")
 PID = os.getpid()
 
 
@@ -65,6 +67,7 @@ def tab(l, i):
 class Recorder:
     def __init__(self):
         self.acts = []
+        self.pushed = []
         self.pushes = 0
         self.first = 0
 
@@ -72,11 +75,16 @@ class Recorder:
         return self.first + self.pushes - 1
 
 
-def make_problem():
+def make_problem(cplx=False):
     import nifty.cl as ift
     d = ift.RGSpace(4)
     a = ift.ScalingOperator(d, 1.).ducktape("a")
     b = ift.ScalingOperator(d, 1.).ducktape("b")
+    if cplx:        # complex-valued data and residuals
+        op = a.real + 1j * (0.3 * b).ptw("exp")
+        data = ift.Field.from_raw(d, np.array([1.3 + 0.2j, 0.7 - 1j, -0.2 + 0.5j, 2.1 + 0j]))
+        lh = ift.GaussianEnergy(data, ift.ScalingOperator(d, 4., np.complex128)) @ op
+        return lh, op
     op = a + (0.3 * b).ptw("exp")
     data = ift.Field.from_raw(d, np.array([1.3, 0.7, -0.2, 2.1]))
     lh = ift.GaussianEnergy(data, ift.ScalingOperator(d, 4., np.float64)) @ op
@@ -133,7 +141,7 @@ def run_once(cfg, total, resume, outdir, known_dirs, init_index=0):
     M = sys.modules["nifty.cl.minimization.optimize_kl"]
     from nifty.cl.minimization.sample_list import ResidualSampleList
     rec = Recorder()
-    lh, op = make_problem()
+    lh, op = make_problem(cfg.get("cplx", False))
 
     class RecMin(ift.NewtonCG):
         def __call__(self, energy):
@@ -217,7 +225,13 @@ def run_once(cfg, total, resume, outdir, known_dirs, init_index=0):
 
     def rpush(s):
         rec.pushes += 1
-        rec.acts.append(("push", rec.cur()))
+        try:        # which child of spawn_sseq(total_iterations) is pushed
+            j = int(s.spawn_key[-1]) - (int(R._sseq[-1].n_children_spawned) - total)
+            ident = [int(s.entropy) if isinstance(s.entropy, (int, np.integer)) else -1] + [int(x) for x in s.spawn_key]
+        except Exception:
+            j, ident = 999, None
+        rec.acts.append(("push", rec.cur(), j if 0 <= j < 999 else 999))
+        rec.pushed.append((rec.cur(), ident))
         return orig_push(s)
 
     def rpop():
@@ -237,7 +251,7 @@ def run_once(cfg, total, resume, outdir, known_dirs, init_index=0):
          "code": 0 if err is None else (1 if isinstance(err, ValueError) else 2 if isinstance(err, AssertionError)
                                         else 3 if isinstance(err, UnboundLocalError) else 4 if isinstance(err, FileNotFoundError) else 5),
          "depth0": depth0, "depth1": len(R._sseq), "last0": last0, "stale": stale, "stale_all": stale_all, "first": rec.first,
-         "files0": sorted(files0), "files1": sorted(listing(outdir)), "acts": rec.acts,
+         "files0": sorted(files0), "files1": sorted(listing(outdir)), "acts": rec.acts, "pushed": rec.pushed,
          "same_objects": ([id(x) for x in R._sseq[:depth0]], [id(x) for x in R._rng[:depth0]]) == ids0,
          "same_states": [g.bit_generator.state for g in R._rng[:depth0]] == states0}
     foreign = []
@@ -284,7 +298,7 @@ def opts_coq(cfg, total, resume, outdir, init=0):
 
 def act_coq(a):
     if a[0] == "push":
-        return "(APush %d)" % a[1]
+        return "(APush %d %d)" % (a[1], a[2])
     if a[0] == "pop":
         return "APop"
     if a[0] == "trans":
@@ -314,20 +328,24 @@ def check_term(cfg, total, resume, outdir, o, init=0):
     return "run_ok %s %s %s %s" % (VARIANT, opts_coq(cfg, total, resume, outdir, init), env, obs)
 
 
-def direct_failures(cfg, total, resume, outdir, o, valid):
+def direct_failures(cfg, total, resume, outdir, o, valid, no_history=False):
     """The property itself on the implementation: list of (signature, what)."""
     out = []
     if valid and o["code"] != 0:
         sig = {"defect": "raises", "exception": o["err"].split(":")[0]}
         if o["code"] == 3:
             sig = {"defect": "unbound_iglobal"}
+        if o["code"] == 4 and "minisanity_history" in o["err"] and not no_history:
+            pass
+        if o["code"] == 4 and no_history:
+            sig = {"defect": "fresh_dir_initial_index"}
         if resume and o["last0"] is not None and o["err"].startswith("KeyError"):
             sig = {"defect": "stale_mean_file"}
         out.append((sig, "a valid configuration raised %s" % o["err"]))
     loaded = resume and o["last0"] is not None and o["code"] == 0 and o["first"] != total
     if o["depth1"] != o["depth0"]:
         via = "dry_run" if cfg["dry"] else ("terminate_callback" if any(a[0] == "term" and a[2] for a in o["acts"]) else "other")
-        if o["code"] == 0 or valid:
+        if o["code"] == 0:          # (a call that raised is reported as such)
             out.append(({"defect": "rng_leak", "via": via},
                         "RNG stack depth %d at entry, %d at return (%s)" % (o["depth0"], o["depth1"], via)))
     elif o["code"] == 0 and not loaded and not (o["same_objects"] and o["same_states"]):
@@ -360,15 +378,47 @@ def direct_failures(cfg, total, resume, outdir, o, valid):
     return out
 
 
-def precondition_on_directory(r):
-    """A positive initial_index with an output directory continues an earlier call: the minisanity
-    history of iteration initial_index - 1 must be there (it is not if that call was a dry run or was
-    terminated early)."""
+def history_to_continue(r):
+    """False for a positive initial_index with an output directory that does not hold the minisanity
+    history of iteration initial_index - 1 (fresh directory, or the earlier call was a dry run or was
+    terminated early).  Such a call is a documented configuration; it fails without fix C27-5."""
     o = r["obs"]
     if r["init"] == 0 or r["outdir"] is None or (r["resume"] and o["last0"] is not None):
         return True
     name = "latest" if r["cfg"]["save"] == "latest" else "iteration_%d" % (r["init"] - 1)
     return ("pickle/minisanity_history_" + name) in o["files0"]
+
+
+def fresh_failures(recs):
+    """fresh_stochasticity(i) False <=> iteration i uses the seed sequence of iteration i-1, True <=> a new
+    one -- across the calls of one history (stop by total_iterations or terminate_callback, then resume).
+    Only for histories whose calls share the random state (output directory + resume)."""
+    seen = {}
+    order = []
+    for r in recs:
+        if r["outdir"] is None:
+            return []
+        if r is not recs[0] and not (r["resume"] and r["obs"]["last0"] is not None):
+            seen, order = {}, []            # nothing to resume from: the run starts from scratch
+        for i, ident in r["obs"]["pushed"]:
+            if ident is None:
+                return []
+            if i in seen and seen[i] != ident:
+                return [({"defect": "fresh_stochasticity"}, "iteration %d uses different seed sequences in two calls of one history" % i)]
+            if i not in seen:
+                seen[i] = ident
+                order.append(i)
+    fresh = recs[0]["cfg"]["fresh"]
+    for i in order:
+        if i == 0 or (i - 1) not in seen:
+            continue
+        same = seen[i] == seen[i - 1]
+        if tab(fresh, i) == same:
+            return [({"defect": "fresh_stochasticity"},
+                     "fresh_stochasticity(%d)=%s but iteration %d uses %s seed sequence as iteration %d (calls: %s)"
+                     % (i, tab(fresh, i), i, "the same" if same else "another", i - 1,
+                        [(r["total"], r["resume"]) for r in recs]))]
+    return []
 
 
 # --------------------------------------------------------------------------------------------------
@@ -385,7 +435,7 @@ PARAMS = {
     "resume": ["no", "fresh", "continue", "done"],
     "sanity": [False, True],
     "dry": [False, True],
-    "fresh": [[True], [True, False], [True, False, True]],
+    "fresh": [[True], [True, False], [True, False, True], [True, False, False]],
     "term": [None, [True], [False, True], [False]],
     "inspect": [0, 1, 2],
     "trans": [None, [False], [False, True]],
@@ -398,6 +448,8 @@ PARAMS = {
     "callables": [False, True],
     "init_pos": [False, True],
     "init": [0, 1, 2],
+    "cplx": [False, True],
+    "prefill": [True, False],      # initial_index > 0: an earlier call has filled the output directory / it is fresh
 }
 
 
@@ -410,6 +462,8 @@ def normalise(c):
         c["ns"] = [0]
     if c["resume"] == "continue" and c["total"] < 2:
         c["total"] = 2
+    if c.get("init", 0) == 0 or not c["outdir"]:
+        c["prefill"] = True
     if c.get("init", 0) > 0:
         if c["resume"] == "continue":
             c["resume"] = "no"
@@ -452,7 +506,7 @@ def base_cfg(**kw):
     c = {"total": 2, "ns": [2], "outdir": False, "save": "latest", "plot_e": False, "plot_m": False, "resume": "no",
          "sanity": True, "dry": False, "fresh": [True], "term": None, "inspect": 2, "trans": None, "ret_pos": True,
          "export": False, "constants": "none", "pes": "none", "sic": True, "nonlinear": False, "callables": False,
-         "init_pos": False, "init": 0}
+         "init_pos": False, "init": 0, "cplx": False, "prefill": True}
     c.update(kw)
     return c
 
@@ -466,7 +520,14 @@ SPECIAL = [
     ("error", base_cfg(sic=False, ns=[2], sanity=True)),
     ("error-resume-without-outdir", base_cfg()),
     ("error", base_cfg(total=2, init=2)),                                   # initial_index >= total_iterations
-    ("error-fresh-dir", base_cfg(total=3, init=1, outdir=True)),            # positive initial_index on a fresh directory
+    # fresh_stochasticity False in two consecutive iterations straddling a stop: by terminate + resume,
+    # by resume after a shorter run, by a second call with initial_index
+    ("valid", base_cfg(total=4, fresh=[True, False, False, False], outdir=True, resume="continue", term=[False, True], inspect=1)),
+    ("valid", base_cfg(total=3, fresh=[True, False, False], outdir=True, resume="continue", save="all")),
+    ("valid", base_cfg(total=3, fresh=[True, False, False], init=2, ns=[1])),
+    # complex-valued data with every output switched on
+    ("valid", base_cfg(total=2, cplx=True, outdir=True, plot_e=True, plot_m=True, export=True)),
+    ("valid", base_cfg(total=2, cplx=True, outdir=True, plot_m=True, ns=[0, 2], save="all", resume="continue")),
 ]
 
 
@@ -485,8 +546,16 @@ class C27(C.Check):
         "a directory that is resumed from was written by an earlier call with the same save strategy",
     ]
 
+    extra_targets = ["C27/Gen_Variant.vo"]
+
     def __init__(self):
         self.obs = []
+        self.histories = []
+
+    def translate(self, ctx):
+        from tr import c27_variant
+        text, self.fix_mh = c27_variant.translate(ctx.repo)
+        C.write_if_changed(os.path.join(C.COQ, "C27", "Gen_Variant.v"), text)
 
     def execute(self, ctx, kind, cfg, tag):
         """Run one configuration (one or two calls).  Returns a list of stage records."""
@@ -498,7 +567,7 @@ class C27(C.Check):
         stages = []
         mode = cfg["resume"]
         init = cfg.get("init", 0)
-        if init and outdir is not None and kind != "error-fresh-dir":
+        if init and outdir is not None and cfg.get("prefill", True):
             # "May be used if optimize_kl is called multiple times": an earlier call filled the directory
             stages.append((init, False, outdir, 0))
         if kind == "error-resume-without-outdir":
@@ -543,8 +612,11 @@ class C27(C.Check):
         for _ in range(0 if ctx.quick else 120):       # beyond pairwise: random configurations
             todo.append(("valid", normalise({k: PARAMS[k][int(rng.integers(0, len(PARAMS[k])))] for k in ks})))
         self.obs = []
+        self.histories = []
         for k, (kind, cfg) in enumerate(todo):
-            self.obs += self.execute(ctx, kind, cfg, "c%03d" % k)
+            recs = self.execute(ctx, kind, cfg, "c%03d" % k)
+            self.obs += recs
+            self.histories.append(recs)
         checks = []
         for r in self.obs:
             t = check_term(r["cfg"], r["total"], r["resume"], r["outdir"], r["obs"], r["init"])
@@ -582,14 +654,22 @@ class C27(C.Check):
         seen = set()
         for r in self.obs:
             n += 1
-            valid = r["kind"] == "valid" and precondition_on_directory(r)
-            for sig, what in direct_failures(r["cfg"], r["total"], r["resume"], r["outdir"], r["obs"], valid):
+            valid = r["kind"] == "valid"
+            for sig, what in direct_failures(r["cfg"], r["total"], r["resume"], r["outdir"], r["obs"], valid,
+                                             not history_to_continue(r)):
                 key = json.dumps(sig, sort_keys=True)
                 if key in seen:
                     continue
                 seen.add(key)
                 res.add_failing(sig, what, {"kind": r["kind"], "cfg": r["cfg"], "signature": sig})
-        res.coverage["impl_property_evaluations"] = n
+        for recs in self.histories:
+            if recs and recs[0]["kind"] == "valid" and all(r["obs"]["code"] == 0 for r in recs):
+                for sig, what in fresh_failures(recs):
+                    key = json.dumps(sig, sort_keys=True)
+                    if key not in seen:
+                        seen.add(key)
+                        res.add_failing(sig, what, {"kind": "valid", "cfg": recs[0]["cfg"], "signature": sig})
+        res.coverage["impl_property_evaluations"] = n + len(self.histories)
         cleanup_scratch(self.prop)
 
     def replay(self, ctx, rp):
@@ -626,9 +706,11 @@ class C27(C.Check):
             cfgs = [base_cfg(outdir=True, total=1), inp["cfg"]]       # a directory must have been used before
         fails = []
         for k, cfg in enumerate(cfgs):
-            for r in self.execute(ctx, inp["kind"], cfg, "replay%d" % k):
+            recs_k = self.execute(ctx, inp["kind"], cfg, "replay%d" % k)
+            for r in recs_k:
                 fails += direct_failures(r["cfg"], r["total"], r["resume"], r["outdir"], r["obs"],
-                                         inp["kind"] == "valid" and precondition_on_directory(r))
+                                         inp["kind"] == "valid", not history_to_continue(r))
+            fails += fresh_failures(recs_k)
         return any(sig == inp["signature"] for sig, _ in fails)
 
 
